@@ -60,8 +60,10 @@ CLAIMED.update({
     'C01': ('proof', 'The real radio thread (negotiation + service loop) and RadioDriver.send/receive run against a safelink peer model for every '
             'outcome sequence (acked / uplink lost / ack lost) and submission schedule up to a bounded number of transmissions; the one-step '
             '_send_packet_safe contract is proved for all inputs; link-error reporting at exactly the N-th consecutive loss.',
-            'Peer (nRF51 safelink) model is an assumed contract written in contracts/C01.py; 4 transmissions (quick) / 5 (thorough) explored '
-            'exhaustively; application/radio thread concurrency only through the assumed FIFO queue; link statistics stubbed.', '5 C01'),
+            'Peer (nRF51 safelink) model is an assumed contract written in contracts/C01.py; the delivery clause is proved for any number of '
+            'transmissions by an inductive invariant of the radio loop (delivery.inductive) and additionally explored exhaustively for 4 '
+            '(quick) / 5-6 (thorough) transmissions; application/radio thread concurrency only through the assumed FIFO queue and explicit '
+            'schedules; one recorded known finding (pause() loses an accepted packet).', '5 C01'),
     'C20': ('proof', 'RadioDriver.parse_uri proved for every well-formed shape with symbolic characters (dongle 1-9 digits, channel 1-3 digits, '
             'three rates or none, address 0-10 hex digits of either case, rate_limit), serial-number dongles, scan round trip, connect '
             'settings, scheme disjointness of the six drivers, get_link_driver selection, open_link never lets an exception escape.',
